@@ -187,9 +187,24 @@ fn gen_payload(r: &mut Rng, kind: Kind, offset_boundary: bool, side: i8) -> BigC
 
 fn big_count(tier: Tier) -> u64 {
     match tier {
-        Tier::Quick => 30,    // 2 boundaries x 3 sides x 5 kinds
-        Tier::Thorough => 240, // x 8 jitters
+        Tier::Quick => 32,    // 2 boundaries x 3 sides x 5 kinds + 2 single samples around 2^32 bytes
+        Tier::Thorough => 242, // x 8 jitters
     }
+}
+
+/// One sample of 2^32 - 1 / 2^32 + 5 bytes (the 32-bit sample-size table has no wider form:
+/// such a sample must be stored exactly or refused, never truncated), followed by a small one.
+fn gen_huge_sample(r: &mut Rng, over: bool) -> BigCase {
+    let kind = *r.pick(&Kind::ALL);
+    let len: u64 = if over { B32 + 5 } else { B32 - 1 };
+    let ops = vec![
+        Op::AddTrack(basic_track(kind, 1000)),
+        Op::Write { track_id: 1, s: fill(0, len, 1000) },
+        Op::Write { track_id: 1, s: SampleW { payload: Payload::Stamp { len: 7, tag: 77 }, duration: 1000, offset: 0, sync: true, start_time: 0 } },
+        Op::End,
+    ];
+    let sc = MuxScenario { cfg: plain_cfg(1000), ops, start_pos: 0, io: IoKnobs::plain(), preexisting: 0, fault: None };
+    BigCase { family: "huge_sample".into(), side: if over { 1 } else { -1 }, sc }
 }
 
 impl Prop for C13 {
@@ -208,6 +223,9 @@ impl Prop for C13 {
     fn gen(seed: u64, idx: u64, tier: Tier) -> BigCase {
         let mut r = Rng::new(seed);
         let nb = big_count(tier);
+        if idx >= nb - 2 && idx < nb {
+            return gen_huge_sample(&mut r, idx == nb - 1);
+        }
         if idx < nb {
             // structured family: boundary x side x kind (x jitter)
             let j = idx % 30;
